@@ -268,11 +268,11 @@ fn main() {
             }
             if let Some(path) = arg(&args, "--histories") {
                 let lines: Vec<Value> = std::fs::read_to_string(path).unwrap().lines().filter(|l| !l.trim().is_empty()).map(|l| serde_json::from_str(l).unwrap()).collect();
-                threads::run_histories(&lines, &mut evs);
+                threads::run_histories(&lines, &mut evs, arg(&args, "--run-base").map(|s| s.parse().unwrap()).unwrap_or(0));
             }
             if let Some(n) = arg(&args, "--long") {
                 let h = threads::long_history(3, n.parse().unwrap());
-                threads::run_histories(&[h], &mut evs);
+                threads::run_histories(&[h], &mut evs, 0);
             }
             if let Some(n) = arg(&args, "--race") {
                 let run: u64 = arg(&args, "--run").map(|s| s.parse().unwrap()).unwrap_or(0);
